@@ -393,10 +393,19 @@ SKELETON_TARGETS = [
 ]
 
 
-def extract_skeletons():
+# C03: the API façade and the observer behind get_message(); kept in a file of their own (WV/Gen/ApiSkel.lean) so
+# that the big `Skel.skeleton` match (and everything pinned against it) is not disturbed
+API_SKELETON_TARGETS = [
+    ("wormhole.wormhole", "_DelegatedWormhole", None),
+    ("wormhole.wormhole", "_DeferredWormhole", None),
+    ("wormhole.observer", "SequenceObserver", None),
+]
+
+
+def extract_skeletons(targets=None):
     """JSON + Lean data: per class, per method, ordered outgoing calls with guard shape."""
     data = {}
-    for module, cls, _ in SKELETON_TARGETS:
+    for module, cls, _ in (targets or SKELETON_TARGETS):
         mod = importlib.import_module(module)
         klass = getattr(mod, cls)
         for name, member in sorted(vars(klass).items()):
@@ -419,15 +428,15 @@ def extract_skeletons():
     return data
 
 
-def lean_skeletons(data):
-    L = ["namespace WV.Gen.Skel",
+def lean_skeletons(data, ns="WV.Gen.Skel"):
+    L = ["namespace " + ns,
          "/-- ordered outgoing calls `(guard-shape, callee)` of each method, extracted by `ast` from the working tree -/",
          "def skeleton : String → List (String × String)"]
     for k in sorted(data):
         items = ", ".join(f"({lean_str(g)}, {lean_str(c)})" for g, c in data[k])
         L.append(f"  | {lean_str(k)} => [{items}]")
     L.append("  | _ => []")
-    L.append("end WV.Gen.Skel")
+    L.append("end " + ns)
     return "\n".join(L) + "\n"
 
 
@@ -1190,6 +1199,9 @@ def main():
     sk = extract_skeletons()
     if write_if_changed(os.path.join(GEN, "Skel.lean"), hdr + lean_skeletons(sk)):
         changed.append("Skel")
+    if write_if_changed(os.path.join(GEN, "ApiSkel.lean"),
+                        hdr + lean_skeletons(extract_skeletons(API_SKELETON_TARGETS), "WV.Gen.ApiSkel")):
+        changed.append("ApiSkel")
     fl = extract_flags()
     if write_if_changed(os.path.join(GEN, "Flags.lean"), hdr + lean_flags(fl)):
         changed.append("Flags")
